@@ -262,6 +262,31 @@ example : (runItems [.subObj "main.yaml".toList "/A".toList false
 example : (runItems [.subObj "A".toList "/".toList true [.path "a.txt".toList]] ⟨"/run".toList, none⟩).trace.map (fun r => String.ofList r.abs) =
     ["/A", "/A/a.txt"] := by decide
 
+/-- **C19_resolution_independent_of_history**: whatever was loaded before — other config files in
+other directories, earlier assignments of the very same argument with the very same spelling —
+a path value is resolved from its own spelling and the directory of its own source only; a
+later assignment never reuses an earlier resolution -/
+theorem C19_resolution_independent_of_history (pre : List Item) (rel : P) (s : St) (h : (runItems pre s).ok = true) :
+    (runItems (pre ++ [.path rel]) s).trace = (runItems pre s).trace ++ [resolve rel s.cwd] ∧
+    (runItems (pre ++ [.path rel]) s).ok = true := by
+  have := runItems_append pre [.path rel] s h
+  simpa [runItems, runItem] using And.intro this.1 this.2.1
+
+/-- the same inside a later config file: its values are resolved from that file's directory -/
+theorem C19_resolution_independent_of_history_sub (pre : List Item) (ref : P) (items : List Item) (s : St) (h : (runItems pre s).ok = true) :
+    (runItems (pre ++ [.sub ref items]) s).trace =
+      (runItems pre s).trace ++ resolve ref s.cwd :: (runItems items ⟨normAbs (cfgDir s.cwd ref), some (cfgDir s.cwd ref)⟩).trace := by
+  have := runItems_append pre [.sub ref items] s h
+  rw [this.1]
+  simp [runItems, runItem, enter]
+  cases (runItems items ⟨normAbs (cfgDir s.cwd ref), some (cfgDir s.cwd ref)⟩).ok <;> simp
+
+/-- `--cfg /A/a.yaml --cfg /B/b.yaml --file data.txt`, all three spelling `data.txt`: three resolutions, the last one
+(the value the namespace finally holds) belongs to the process working directory -/
+example : (runItems [.sub "/A/a.yaml".toList [.path "data.txt".toList], .sub "/B/b.yaml".toList [.path "data.txt".toList], .path "data.txt".toList]
+    ⟨"/run".toList, none⟩).trace.map (fun r => String.ofList r.abs) =
+    ["/A/a.yaml", "/A/data.txt", "/B/b.yaml", "/B/data.txt", "/run/data.txt"] := by decide
+
 /-- the hypothesis is satisfiable by non-trivial programs: absolute and bare spellings are stable -/
 example : stableItems "/fix/c".toList
     [.listFile "/fix/c/d/list.txt".toList ["t".toList], .sub "../b/m.yaml".toList [.listFile "l.txt".toList ["u".toList]]] = true := by decide
